@@ -140,6 +140,18 @@ func hexs(b string) string { return hex.EncodeToString([]byte(b)) }
 
 func quietly(f func()) { rt.Quiet(f) }
 
+func isAbort(r any) bool { return rt.IsAbort(r) }
+
+// safeParse is ParseVector for harness purposes (initial values of cells).
+func safeParse(a verAPI, s string) (p unsafe.Pointer, err error) {
+	defer func() {
+		if r := recover(); r != nil {
+			p, err = nil, fmt.Errorf("panic: %v", r)
+		}
+	}()
+	return a.Parse(s)
+}
+
 func strHash(s string) uint64 {
 	h := uint64(14695981039346656037)
 	for i := 0; i < len(s); i++ {
@@ -157,14 +169,29 @@ func observe(a verAPI, p unsafe.Pointer) map[string]string {
 	m := map[string]string{}
 	rt.Quiet(func() {
 		for _, ms := range specs[a.Ver()].Metrics {
-			v, err := a.Get(p, ms.Abv)
-			if err != nil {
-				v = "!err:" + canonErr(a, err)
-			}
-			m[ms.Abv] = v
+			m[ms.Abv] = safeGet(a, p, ms.Abv)
 		}
 	})
 	return m
+}
+
+// safeGet is Get for oracle observations: a library panic becomes a value
+// (no legal metric value starts with '!'), it must not take the worker down.
+func safeGet(a verAPI, p unsafe.Pointer, abv string) (v string) {
+	defer func() {
+		if r := recover(); r != nil {
+			if rt.IsAbort(r) {
+				panic(r)
+			}
+			t, _, _ := panicText(r)
+			v = "!panic:" + t
+		}
+	}()
+	v, err := a.Get(p, abv)
+	if err != nil {
+		v = "!err:" + canonErr(a, err)
+	}
+	return v
 }
 
 func modelKey(ver int, m map[string]string) string {
@@ -680,7 +707,7 @@ func runPlan(p *Plan, trace bool, collectCover bool) *runResult {
 		c := &cell{spec: cs, api: a}
 		var init unsafe.Pointer
 		if cs.Init != "" {
-			q, err := a.Parse(cs.Init)
+			q, err := safeParse(a, cs.Init)
 			if q != nil && err == nil {
 				init = q
 			}
